@@ -987,6 +987,36 @@ def shape_target_role_change():
     }
 
 
+def shape_amend_output_of_subplan():
+    """A step of the top-level plan amends the output of a step that a slow sub-plan defines.  When the
+    sub-plan is executed again (after a kill, or because it was interrupted) its producer is detached for a
+    while, still SUCCEEDED with its output BUILT: a consumer that amends the output in that window is told
+    to wait, and must be retried once the sub-plan has brought the producer back."""
+    return {
+        "name": "amend_output_of_subplan",
+        "sources": {"plan.py": ["v1"], "sub.py": ["v1", "v2"], "s1.txt": ["a", "b"]},
+        "scripts": {
+            "./plan.py": {
+                "on": "plan.py",
+                "versions": {
+                    "v1": [
+                        ["static", ["s1.txt", "sub.py"]],
+                        ["step", "./sub.py", {"inp": ["sub.py"], "need": "PLAN"}],
+                        ["step", "CONS", {"out": ["c.txt"]}],
+                        ["step", "CONS2", {"inp": ["s1.txt"], "out": ["c2.txt"]}],
+                    ]
+                },
+            },
+            "./sub.py": {"on": "sub.py", "versions": {
+                "v1": [["nop"], ["step", "PROD", {"inp": ["s1.txt"], "out": ["p.txt"]}], ["nop"], ["nop"], ["nop"], ["nop"], ["nop"], ["nop"]],
+                "v2": [["nop"], ["nop"], ["nop"], ["step", "PROD", {"inp": ["s1.txt"], "out": ["p.txt"]}], ["nop"], ["nop"], ["nop"], ["nop"]]}},
+            "PROD": GENERIC_WORKER,
+            "CONS": [["amend", {"inp": ["p.txt"]}], ["read", "p.txt"], ["write_declared"]],
+            "CONS2": [["nop"], ["nop"], ["amend", {"inp": ["p.txt"]}], ["read", "p.txt"], ["read_declared"], ["write_declared"]],
+        },
+    }
+
+
 def shape_resources():
     return {
         "name": "resources",
@@ -1047,6 +1077,7 @@ SHAPES = {
         shape_glob_sub_slash,
         shape_odd_dir_names,
         shape_target_role_change,
+        shape_amend_output_of_subplan,
         shape_resources,
     )
 }
